@@ -150,9 +150,31 @@ pub fn compilable_definitions(seed: u64, n_random: usize) -> Vec<Definition> {
 
 pub const COMPILABLE_PRELUDE: &str = "#![allow(dead_code)]\n#[derive(Clone, Copy, Debug, Default, PartialEq, Eq)]\npub struct Ctr { pub n: u32 }\n";
 
+/// Two small definitions for every entry of the diagnostic catalog (`ENUM_DIAGNOSTICS`, `VARIANT_DIAGNOSTICS`): every way
+/// the derive can say no is taken at least twice per process, so that a diagnostic whose text depends on what the process
+/// reported before (a "note once", a counter) shows up in the history leg and between key draws.
+pub fn diagnostic_definitions() -> Vec<Definition> {
+    let mut v = Vec::new();
+    for (k, e) in defs::ENUM_DIAGNOSTICS.iter().enumerate() {
+        for (j, rest) in ["#[token(\"a\")] A, #[regex(\"[0-9]+\")] Num", "#[regex(\"b+\")] B"].iter().enumerate() {
+            v.push(Definition { id: format!("diag/enum{}{}", k, ["a", "b"][j]), origin: "diagnostic".into(),
+                source: format!("#[derive(Logos, Debug)]\n{}\nenum DiagE{}{} {{ {} }}\n", e, k, j, rest) });
+        }
+    }
+    for (k, e) in defs::VARIANT_DIAGNOSTICS.iter().enumerate() {
+        for (j, rest) in ["#[token(\"a\")] A,", "#[regex(\"b+\")] B, #[token(\"c\")] C,"].iter().enumerate() {
+            v.push(Definition { id: format!("diag/variant{}{}", k, ["a", "b"][j]), origin: "diagnostic".into(),
+                source: format!("#[derive(Logos, Debug)]\nenum DiagV{}{} {{ {} {} Bad }}\n", k, j, rest, e) });
+        }
+    }
+    v.retain(|d| syn::parse_str::<syn::ItemEnum>(&d.source).is_ok());
+    v
+}
+
 pub fn all_definitions(repo: &str, seed: u64, n_random: usize) -> Vec<Definition> {
     let mut v = repo_definitions(repo);
     v.extend(corpus_definitions());
+    v.extend(diagnostic_definitions());
     v.extend(random_definitions(seed, n_random));
     v
 }
@@ -201,8 +223,10 @@ pub fn decorate(source: &str, rng: &mut Rng) -> String {
             });
             // path-qualify the Logos derive sometimes
             for p in paths.iter_mut() {
-                if p == "Logos" && rng.chance(1, 4) {
-                    *p = "logos::Logos".to_string();
+                if p == "Logos" && rng.chance(1, 3) {
+                    // every way the Logos derive gets spelled: the crate's own path, an absolute path, the derive crate, a
+                    // renamed dependency or a re-export through another crate (`#[logos(crate = ..)]` users)
+                    *p = rng.pick(&["logos::Logos", "logos::Logos", "::logos::Logos", "logos_derive::Logos", "lg::Logos", "my_framework::Logos", "crate::reexports::logos::Logos"]).to_string();
                 }
             }
             // insert extra derives before / between / after
